@@ -3,11 +3,12 @@
 import json, pathlib, re
 root = pathlib.Path(__file__).resolve().parent.parent
 rows = []
+NOTES = json.load(open(root / "tools" / "seed_notes.json"))
 for m in sorted((root / "seeded").glob("*/meta.json")):
     d = json.load(open(m))
     name = m.parent.name
     caught = ", ".join(f"{c} ({'; '.join(x.split('/',1)[1] for x in v['mechanisms'][:2])})" if v["exit"] == 1 else f"{c}: not caught" for c, v in d["checks"].items())
-    note = d.get("first_result", "")
+    note = NOTES.get(name, "caught as first submitted")
     rows.append(f"| `{name}` | {d['property']} | {caught} | {note} |")
 table = "| seeded change | property | quick checks run against it (first mechanisms reported) | note |\n|---|---|---|---|\n" + "\n".join(rows)
 p = root / "DESIGN.md"
